@@ -101,37 +101,50 @@ def KState.afterValues (s : KState) (cfg : KConfig) (n : Node) : Need × Nat :=
   let tail := 1 + sinkSteps.foldl (fun acc m => Nat.max acc m.tail) 0
   (need, tail)
 
+/-- One round of `UPDATE_CHECK_AFTER` on the work set: the rows that are written (all of them in
+the first round, later only those whose value changes), computed from the state before the round. -/
+def KState.afterUpdates (s : KState) (cfg : KConfig) (work : List Key) (first : Bool) : List (Key × Need × Nat) :=
+  work.filterMap fun k =>
+    match s.find? k with
+    | some n =>
+      let (need, tail) := s.afterValues cfg n
+      if first ∨ need ≠ n.impliedNeed ∨ tail ≠ n.tail then some (k, need, tail) else none
+    | none => none
+
+def KState.applyAfterUpdates (s : KState) (updates : List (Key × Need × Nat)) : KState :=
+  s.modifyWhere (fun n => updates.any (·.1 = n.key)) fun n =>
+    match updates.find? (·.1 = n.key) with
+    | some (_, need, tail) => { n with impliedNeed := need, tail := tail }
+    | none => n
+
+/-- `PROPAGATE_CHECK_AFTER`: attached steps two hops upstream of the changed steps. -/
+def KState.propagateAfter (s : KState) (changed : List Key) : List Key :=
+  let files := dedupKeys (changed.flatMap s.sourcesOf)
+  let ups := dedupKeys (files.flatMap s.sourcesOf)
+  ups.filter fun k =>
+    match s.find? k with
+    | some n => n.key.kind = .step ∧ !n.detached
+    | none => false
+
+/-- The loop of `_update_meta_after`; `none` when the fuel runs out (never on an acyclic graph). -/
+def KState.afterLoop (cfg : KConfig) : Nat → KState → List Key → Bool → Option KState
+  | 0, s, work, _ => if work.isEmpty then some s else none
+  | fuel + 1, s, work, first =>
+    if work.isEmpty then some s
+    else
+      let updates := s.afterUpdates cfg work first
+      let s' := s.applyAfterUpdates updates
+      KState.afterLoop cfg fuel s' (s'.propagateAfter (updates.map (·.1))) false
+
 /-- `_update_meta_after`: worklist with early stop; the dependency graph is acyclic, so
 `#nodes + 2` rounds suffice (exhaustion is reported as `hang`). -/
-def KState.updateMetaAfter (s : KState) (cfg : KConfig) : M KState := do
-  if !(s.nodes.any fun n => n.key.kind = .step ∧ n.checkAfter) then return s
-  let mut st := s
-  let mut work := (s.nodes.filter fun n => n.key.kind = .step ∧ !n.detached ∧ n.checkAfter).map (·.key)
-  let mut first := true
-  let mut fuel := s.nodes.length + 2
-  while !work.isEmpty do
-    if fuel = 0 then throw .hang
-    fuel := fuel - 1
-    let snapshot := st
-    let updates := work.filterMap fun k =>
-      match snapshot.find? k with
-      | some n =>
-        let (need, tail) := snapshot.afterValues cfg n
-        if first ∨ need ≠ n.impliedNeed ∨ tail ≠ n.tail then some (k, need, tail) else none
-      | none => none
-    st := st.modifyWhere (fun n => updates.any (·.1 = n.key)) fun n =>
-      match updates.find? (·.1 = n.key) with
-      | some (_, need, tail) => { n with impliedNeed := need, tail := tail }
-      | none => n
-    let changed := updates.map (·.1)
-    let files := dedupKeys (changed.flatMap st.sourcesOf)
-    let ups := dedupKeys (files.flatMap st.sourcesOf)
-    work := ups.filter fun k =>
-      match st.find? k with
-      | some n => n.key.kind = .step ∧ !n.detached
-      | none => false
-    first := false
-  pure (st.modifyWhere (fun n => n.key.kind = .step) fun n => { n with checkAfter := false })
+def KState.updateMetaAfter (s : KState) (cfg : KConfig) : M KState :=
+  if !(s.nodes.any fun n => n.key.kind = .step ∧ n.checkAfter) then pure s
+  else
+    let work := (s.nodes.filter fun n => n.key.kind = .step ∧ !n.detached ∧ n.checkAfter).map (·.key)
+    match KState.afterLoop cfg (s.nodes.length + 2) s work true with
+    | some st => pure (st.modifyWhere (fun n => n.key.kind = .step) fun n => { n with checkAfter := false })
+    | none => throw .hang
 
 def lookupUnavailable (st : FileState) (dyn detached : Bool) : Bool :=
   ((unavailableInputTable.find? fun e => e.1 = (st, dyn, detached)).map (·.2)).getD true
@@ -228,27 +241,32 @@ def KState.creatorChainPending (s : KState) (k : Key) : Bool :=
           | some cn => if cn.key.kind = .step ∧ cn.sstate = .pending then true else go fuel c
   go (s.nodes.length + 1) k
 
-/-- `Workflow.reconcile_targets` -/
-def KState.reconcileTargets (s : KState) (cfg : KConfig) : M KState := do
-  let mut st := s.modifyWhere (fun n => n.key.kind = .step ∧ n.impliedNeed = .target) fun n => { n with checkAfter := true }
-  for t in sortStrs cfg.targets do
-    match st.find? (fileKey t) with
-    | some f =>
-      if f.detached then continue
-      if Enums.targetForbiddenStates.contains f.fstate then
-        if !st.creatorChainPending f.key then graphErr "forbidden target"
-        continue
-      match st.creatorStep f.key with
-      | some c => st := st.modify c fun n => { n with checkAfter := true }
-      | none => pure ()
-    | none => pure ()
-  -- RECONCILE_TARGET_DIRS
-  let producers := st.deps.filterMap fun d =>
-    match st.find? d.snk with
+/-- One exact target of `reconcile_targets`. -/
+def KState.reconcileTarget (s : KState) (t : String) : M KState :=
+  match s.find? (fileKey t) with
+  | some f =>
+    if f.detached then pure s
+    else if Enums.targetForbiddenStates.contains f.fstate then
+      if !s.creatorChainPending f.key then graphErr "forbidden target" else pure s
+    else match s.creatorStep f.key with
+      | some c => pure (s.modify c fun n => { n with checkAfter := true })
+      | none => pure s
+  | none => pure s
+
+/-- `RECONCILE_TARGET_DIRS` -/
+def KState.reconcileTargetDirs (s : KState) (cfg : KConfig) : KState :=
+  let producers := s.deps.filterMap fun d =>
+    match s.find? d.snk with
     | some f =>
       if f.key.kind = .file ∧ lookupRegularOutput f.fstate f.detached ∧ cfg.targetDirs.any (fun dir => underDir dir f.key.label)
       then some d.src else none
     | none => none
-  pure (st.modifyWhere (fun n => n.key.kind = .step ∧ producers.contains n.key) fun n => { n with checkAfter := true })
+  s.modifyWhere (fun n => n.key.kind = .step ∧ producers.contains n.key) fun n => { n with checkAfter := true }
+
+/-- `Workflow.reconcile_targets` -/
+def KState.reconcileTargets (s : KState) (cfg : KConfig) : M KState := do
+  let s0 := s.modifyWhere (fun n => n.key.kind = .step ∧ n.impliedNeed = .target) fun n => { n with checkAfter := true }
+  let s1 ← (sortStrs cfg.targets).foldlM (fun st t => st.reconcileTarget t) s0
+  pure (s1.reconcileTargetDirs cfg)
 
 end StepupModel.K
